@@ -142,6 +142,28 @@ def _expect_members(cls, key):
     return {"i": (In, 1), "o": (Out, 1), "oe": (Out, 1)}
 
 
+# create() called from the outermost Python frame of its thread (what the top level of a script or
+# a REPL is): a thread whose entry point is the builtin exec() running module-level code.
+_TOP_CODE = compile("""
+try:
+    result = sig.create()
+    named = sig.create(path=("p", "q"))
+except BaseException as e:
+    error = e
+finally:
+    done.set()
+""", "<toplevel>", "exec")
+
+
+def _create_at_top_level(sig):
+    import _thread, threading
+    g = {"sig": sig, "done": threading.Event()}
+    _thread.start_new_thread(exec, (_TOP_CODE, g))
+    if not g["done"].wait(60):
+        raise RuntimeError("top-level create() did not finish")       # pragma: no cover
+    return g
+
+
 def _check_sig(spec, stats):
     cls = spec["cls"]
     stats.label("sig:" + cls)
@@ -170,6 +192,12 @@ def _check_sig(spec, stats):
         named = s.create(path=("p", "q"))
         if not (named.signature == s):
             raise Violation(f"C20/create-roundtrip/{cls}", f"create(path=...) lost parameters {k}")
+        top = _create_at_top_level(s)
+        if "error" in top:
+            raise Violation(f"C20/create-toplevel/{cls}", f"{s!r}.create() called from the outermost frame (top level "
+                            f"of a script) raised {type(top['error']).__name__}: {top['error']}")
+        if not (top["result"].signature == s) or not (top["named"].signature == s):
+            raise Violation(f"C20/create-roundtrip/{cls}", f"create() at top level lost parameters {k}")
         exp = _expect_members(cls, k)
         got = {n: (m.flow, Shape.cast(m.shape).width) for n, m in s.members.items()}
         if got != exp:
